@@ -30,6 +30,10 @@ UTC = datetime.timezone.utc
 OUT = c12.OUTCOME_ARGS
 
 
+class WorkerExit(SystemExit):
+    """What a worker raises when the code under test calls sys.exit(): not an Exception."""
+
+
 class WorkerBoom(RuntimeError):
     pass
 
@@ -39,6 +43,8 @@ class IterBoom(RuntimeError):
 
 
 class Worker:
+    boom = WorkerBoom
+
     def __init__(self, name, tests, raise_at=None, use_times=True, native=False):
         self.native = native  # speaks StreamResult itself (ConcurrentStreamTestSuite only)
         self.name = name
@@ -56,7 +62,7 @@ class Worker:
         try:
             for j, (tid, outcome) in enumerate(self.tests):
                 if self.raise_at == j:
-                    raise WorkerBoom(self.name)
+                    raise self.boom(self.name)
                 if self.native:
                     # replays recorded event dicts: every field is given, the timestamp as None
                     final = {"addSuccess": "success", "addFailure": "fail", "addSkip": "skip"}[outcome]
@@ -73,12 +79,16 @@ class Worker:
                 getattr(result, outcome)(t, **OUT[outcome]())
                 result.stopTest(t)
             if self.raise_at == len(self.tests):
-                raise WorkerBoom(self.name)
+                raise self.boom(self.name)
         finally:
             self.finished = True
 
     def __repr__(self):
         return "<Worker %s>" % self.name
+
+
+class ExitingWorker(Worker):
+    boom = WorkerExit
 
 
 class SuiteLikeWorker(Worker):
@@ -99,6 +109,8 @@ CONFIGS = {
     "w2same": [([("a1", "addSuccess"), ("a2", "addFailure")], None), ([("b1", "addSkip")], None)],
     "w2none": [([("a1", "addSuccess")], None), ([("b1", "addError"), ("b2", "addSuccess")], None)],
     "w1empty": [([], None)],
+    # run() ends with SystemExit (sys.exit() somewhere in the code under test) after its first test
+    "w2exit": [([("a1", "addSuccess")], None), ([("b1", "addFailure"), ("b2", "addSuccess")], 1, "exit")],
     # sub-suites that are plain-TestSuite-like: unhashable, and equal to one another
     "w2suites": [([("a1", "addSuccess")], None, "suite"), ([("b1", "addFailure")], None, "suite")],
     "w2native": [([("a1", "addSuccess")], None), ([("b1", "addFailure"), ("b2", "addSkip")], None, "native")],
@@ -116,7 +128,7 @@ def routes_of(config):
 
 
 def make_workers(config):
-    return [(SuiteLikeWorker if spec[2:] == ("suite",) else Worker)("w%d" % i, spec[0], spec[1], native=spec[2:] == ("native",)) for i, spec in enumerate(CONFIGS[config])]
+    return [(SuiteLikeWorker if spec[2:] == ("suite",) else ExitingWorker if spec[2:] == ("exit",) else Worker)("w%d" % i, spec[0], spec[1], native=spec[2:] == ("native",)) for i, spec in enumerate(CONFIGS[config])]
 
 
 class Observer:
@@ -323,7 +335,7 @@ def reference(kind, config):
             tfr = ThreadsafeForwardingResult(target, real_threading.Semaphore(1))
             try:
                 w.run(tfr)
-            except WorkerBoom:
+            except (WorkerBoom, WorkerExit):
                 _broken("broken-runner").run(tfr)
             out.append([(n, p) for (_, n, p, _) in target.log])
         else:
@@ -332,7 +344,7 @@ def reference(kind, config):
             etsd.startTestRun()
             try:
                 w.run(etsd)
-            except WorkerBoom:
+            except (WorkerBoom, WorkerExit):
                 _broken("broken-runner-'%s'" % routes_of(config)[i]).run(etsd)
             etsd.stopTestRun()
             evs = []
@@ -606,6 +618,7 @@ def plan(tier):
             out.append((kind, "w1", (2, 1), None, False))
             out.append((kind, "w1empty", (99, 1), None, False))
             out.append((kind, "w2suites", (1, 1), None, False))
+            out.append((kind, "w2exit", (1, 0), None, False))
             if kind == "csts":
                 out.append((kind, "w2same", (2, 0), None, False))
                 out.append((kind, "w2none", (2, 0), None, False))
